@@ -21,7 +21,7 @@ T(o, x)      == [op |-> "SetTol", obj |-> o, tol |-> x]
 Qy(o, q)     == [op |-> "Query", obj |-> o, q |-> q]
 
 Plans ==
-     {<<C(1, c, k), K(1, "full", 1), K(1, "full", 2), K(1, "perm", 1), K(1, "full", 1)>> : c \in Classes, k \in Cfgs}
+     {<<C(1, c, k), K(1, "full", 1), K(1, "full", 2), K(1, "perm", 1), K(1, "full", 1), K(1, "inner", 1)>> : c \in Classes, k \in Cfgs}
 \cup {<<C(1, c, 1), C(2, c, 2), K(1, "full", 1), K(2, "full", 1), K(1, "full", 1), K(2, "subset", 2), K(1, "dup", 2)>> : c \in Classes}
 \cup {<<C(1, c, 2), K(1, "full", 1), C(2, c, 1), K(2, "full", 1), K(1, "full", 1)>> : c \in Classes}
 \cup UNION {{<<C(1, c, 1), C(2, d, 1), K(1, "full", 1), K(2, "full", 1), K(1, "full", 1)>> :
